@@ -181,8 +181,15 @@ func (r *Run) eval(env *SpecEnv, e Expr) SV {
 		return r.eval(&n, x.X)
 	case ELet:
 		v := r.eval(env, x.Val)
-		if v.t.S != "" {
-			v.t = r.def("let_"+x.Name, v.t)
+		if v.t.S != "" && v.t.S != "nil" {
+			if r.noDef == 0 && strings.Contains(v.t.S, " ") {
+				// a constant (not a macro), so that the bound name can be used inside quantifier patterns
+				c := r.havoc("let_"+x.Name, v.t.Sort)
+				r.emit(fmt.Sprintf("(assert (= %s %s))", c.S, v.t.S))
+				v.t = c
+			} else {
+				v.t = r.def("let_"+x.Name, v.t)
+			}
 		}
 		return r.eval(env.with(x.Name, v), x.Body)
 	case EUnary:
